@@ -55,6 +55,8 @@ def dupSafe (s : St) : Ev → Bool
   | .writeT _ _ rows => rows.all (fun r => decide (cnt rows r.id + cntLS s r.id ≤ 1))
   | .tick => (filesRows s.files).all (fun r => decide (phi s r.id ≤ 1))
   | .restart => (filesRows s.files).all (fun r => decide (phi s r.id ≤ 1))
+  | .tickF _ => false      -- a replay pass with a rejected callback keeps the file: its replayed rows WILL be replayed again
+  | .restartF _ => false
   | _ => true
 
 def carveDup (c : Cfg) (s : St) : Trace → Bool
@@ -69,7 +71,9 @@ theorem cnt_pos_mem {rows : List Row} {i : Nat} (h : 0 < cnt rows i) : ∃ r ∈
 theorem step_dupFree (c : Cfg) (s : St) (e : Ev) (obs : List Nat) (hs : DupFree s) (hc : dupSafe s e = true) :
     DupFree (step c s e obs) := by
   intro i
-  have hb := step_cntLS c s e obs i
+  have hne : e.injects = false := by
+    cases e <;> first | rfl | (simp [dupSafe] at hc)
+  have hb := step_cntLS c s e obs i hne
   have h0 := hs i
   by_cases ha : added s e i = 0
   · omega
@@ -89,6 +93,8 @@ theorem step_dupFree (c : Cfg) (s : St) (e : Ev) (obs : List Nat) (hs : DupFree 
       have hb' : cntLS (step c s (.writeT d k rows) obs) i ≤ cntLS s i + cnt rows i := hb
       omega
     | stall => exact absurd rfl ha
+    | tickF n => simp [dupSafe] at hc
+    | restartF n => simp [dupSafe] at hc
     | tick =>
       obtain ⟨r, hr, hi⟩ := cnt_pos_mem (show 0 < cnt (filesRows s.files) i from hpos)
       have := (List.all_eq_true.mp hc) r hr
@@ -281,6 +287,24 @@ theorem C07_eventually_benign_events (c : Cfg) (s : St) (obs : List Nat) (e : Ev
   · show Cov (if s.up then stepUp c (begin s obs 1) .wpause else begin s obs 0)
     split <;> exact frame _ rfl rfl rfl rfl rfl rfl rfl rfl rfl
   · exact frame _ rfl rfl rfl rfl rfl rfl rfl rfl rfl
+
+/-- mixed-format file (columnar entry of rows 1,2, row-format entry of rows 3,4, columnar entry of row 5),
+flush failures, rotation; the tick's replay pass has its first callback invocation rejected -/
+def traceReplayReject : Trace := noObs [.restart, .mode (some 0), .write 0 [r 1 0, r 2 0], .writeT true 1 [r 3 0, r 4 0],
+  .adv 310, .write 0 [r 5 0], .mode none, .adv 10, .tickF 0]
+
+/-- **a WAL file is deleted by a replay pass only if every entry of it was replayed**: after the rejected
+columnar entry the later row / columnar entries are replayed, and the file — rows 1,2 included — is still
+on disk (`RecoverWithOptions`: `allEntriesSucceeded` stays false) -/
+theorem C07_replay_keeps_file_of_rejected_entry :
+    cnt (filesRows (runO (cfgGen true) {} traceReplayReject).files) 1 = 1
+      ∧ 0 < cntLS (runO (cfgGen true) {} traceReplayReject) 3
+      ∧ lostIn (cfgGen true) traceReplayReject 1 = false := by decide
+
+/-- the same at start-up recovery -/
+theorem C07_restart_keeps_file_of_rejected_entry :
+    cnt (filesRows (runO (cfgGen true) {} (noObs [.restart, .mode (some 0), .write 0 [r 1 0, r 2 0],
+      .writeT true 1 [r 3 0, r 4 0], .crash, .mode none, .restartF 0])).files) 1 = 1 := by decide
 
 /-! ## WAL disabled: a dropped write is not acknowledged -/
 
